@@ -193,7 +193,7 @@ class Ctx:
         return outp, time.time() - t
 
     def validate(self, trace_spec, trace, driver, cfg=None, shards=None, timeout=1200, xmx="3g", env=None,
-                 sample=True, count_key=None):
+                 sample=True, keep=None):
         """Validates a recorded trace (impl -> spec).  The trace is split at Reset events into
         shards, one TLC process each.  Returns (nvalid, bad) and records failures."""
         cfg = cfg or trace_spec
@@ -238,6 +238,12 @@ class Ctx:
         for s in scen:
             if s:
                 by_sid.setdefault(s[0].get("sid"), s)
+        if keep:
+            other = [b for b in bad if not keep(b[2])]
+            bad = [b for b in bad if keep(b[2])]
+            if other:
+                log(f"[val] {len(other)} rejected scenario(s) concern another property's clause and are not "
+                    f"attributed to {self.pid}")
         for b in bad:
             sid, line, why = b[0], b[1], b[2]
             self.failures.append({"driver": driver, "trace_spec": trace_spec, "sid": sid, "why": why,
